@@ -4,8 +4,9 @@ import json, os, shutil, subprocess, sys
 pid = sys.argv[1]
 caught = sys.argv[2]
 strengthened = sys.argv[3] if len(sys.argv) > 3 else ""
-src = f"/tmp/seeded/{pid}"
-dst = f"/verif/seeded/{pid}"
+rnd = os.environ.get("ROUND", "")
+src = f"/tmp/seeded{rnd}/{pid}"
+dst = f"/verif/seeded/{pid}" + (f"-r{rnd}" if rnd else "")
 os.makedirs(dst, exist_ok=True)
 for f in ("patch.diff", "demo.py"):
     shutil.copy(os.path.join(src, f), os.path.join(dst, f))
@@ -15,7 +16,7 @@ def tail(path):
         return open(path).read().strip().splitlines()[-1][:200]
     except Exception:
         return None
-base = subprocess.run(["git", "-C", f"/tmp/wt/{pid}", "rev-parse", "--short", "HEAD"], capture_output=True, text=True).stdout.strip()
+base = subprocess.run(["git", "-C", f"/tmp/wt{rnd}/{pid}", "rev-parse", "--short", "HEAD"], capture_output=True, text=True).stdout.strip()
 meta["breaks_property"] = pid
 meta["written_by"] = "independent sub-agent given only the property text and a scratch worktree (nothing from /verif)"
 meta["base_commit_of_repo"] = base
@@ -24,7 +25,7 @@ meta["confirmed_by_me"] = {
     "demo_with_change": tail(os.path.join(src, "demo_with.txt")) + " (exit 1)",
     "demo_without_change": tail(os.path.join(src, "demo_without.txt")) + " (exit 0)",
     "existing_suite_with_change": tail(os.path.join(src, "suite.log")) if os.path.exists(os.path.join(src, "suite.log")) else "see tests_run (sub-agent); re-run pending",
-    "commands": [f"tools/verify_seed.sh {pid}", f"tools/try_mutant.sh /tmp/wt/{pid} {pid}"],
+    "commands": [f"tools/verify_seed.sh {pid} /tmp/wt{rnd}/{pid} /tmp/seeded{rnd}/{pid}", f"tools/try_mutant.sh /tmp/wt{rnd}/{pid} {pid}"],
 }
 meta["detected_by"] = caught
 if strengthened:
